@@ -250,6 +250,216 @@ def relabel_support_hook(interp, a, b):
     return lambda i, k: [inv(k)]
 
 
+# ------------------------------------------------------------------------------------------ _equal_graphs
+from . import nxmodel as NX  # noqa: E402
+
+EQGQ = f"{RELABEL}:_equal_graphs"
+
+
+def EQG():
+    return z3.Function("equal_graphs", z3.IntSort(), z3.IntSort(), z3.BoolSort())
+
+
+def _eqg_extract(I, ret):
+    if I is None:
+        return dict(ret=bool(ret), witness=None)
+    calls = I.path.ghost.get("array_equal_calls")
+    return dict(ret=ret, witness=calls[-1]["witness"] if calls and calls[-1]["result"] is ret else None)
+
+
+def _eqg_spec(I, g1, g2):
+    """r <=> same number of nodes and identical edge sets (adjacency compared as booleans)
+    own task: r is the body's value, both directions are claims; call sites: r = equal_graphs(id1, id2), characterisation assumed"""
+    path = I.path
+    n1, n2 = to_z3(g1.payload["n"]), to_z3(g2.payload["n"])
+    a1, a2 = g1.payload["adj"], g2.payload["adj"]
+
+    def same(i, j):
+        return (as_int_term(a1(i, j)) != 0) == (as_int_term(a2(i, j)) != 0)
+
+    if I.choice is not None:
+        r, w = I.choice["ret"], I.choice["witness"]
+    else:
+        r, w = EQG()(g1.payload["id"], g2.payload["id"]), None
+    rt = to_z3(r)
+    if I.choice is not None:
+        i, j = path.fresh("csk"), path.fresh("csk")
+        path.oblige(f"{I.claim_label}:choice.true-only-if-same-graph", z3.Implies(rt, z3.And(n1 == n2, same(i, j))),
+                    extra=[i >= 0, i < n1, j >= 0, j < n1])
+    c = path.counter.get("cq", 0)
+    path.counter["cq"] = c + 1
+    qi, qj = z3.Int(f"cq!{c}i"), z3.Int(f"cq!{c}j")
+    path.assume(z3.Implies(rt, z3.And(n1 == n2, z3.ForAll([qi, qj], z3.Implies(z3.And(qi >= 0, qi < n1, qj >= 0, qj < n1), same(qi, qj))))))
+    nc = concrete_int(n1)
+    if w is None and nc is not None and concrete_int(n2) == nc:
+        ex = z3.Or(*[z3.Not(same(z3.IntVal(x), z3.IntVal(y))) for x in range(nc) for y in range(nc)]) if nc else z3.BoolVal(False)
+    else:
+        if w is None:
+            w = [path.fresh("ew"), path.fresh("ew")]
+        ex = z3.And(w[0] >= 0, w[0] < n1, w[1] >= 0, w[1] < n1, z3.Not(same(w[0], w[1])))
+    I.claim("false-only-if-graphs-differ", z3.Implies(z3.Not(rt), z3.Or(n1 != n2, ex)))
+    return r
+
+
+C[EQGQ] = Contract(EQGQ, requires=lambda I, g1, g2: NX.is_graph(g1) and NX.is_graph(g2), spec=_eqg_spec, extract=_eqg_extract,
+                   clause="_equal_graphs(g1,g2) is True exactly when the two graphs have the same adjacency matrix (as booleans)")
+
+
+# ------------------------------------------------------------------------------------------ check_isomorphism
+CHK = f"{RELABEL}:check_isomorphism"
+
+
+def first_match_list_hook(interp, node, it):
+    """Rule for   for x in <list of symbolic length>:  if C(x): <stmts>; break      (no else)
+    where C is PURE (here: a call of a function under a side-effect-free contract or of an [A]-pure networkx predicate):
+         either  exists s: 0<=s<N, C(l[s]), forall k<s: not C(l[k]), and the loop's effect is <stmts> with x = l[s]
+         or      forall k<N: not C(l[k]) and the loop has no effect.
+    Same argument as pyvc.loops.first_match_hook; the test is evaluated once at a skolem position with obligations on
+    (callee preconditions), afterwards quietly."""
+    import ast
+    from pyvc.symlist import SymList
+
+    if not isinstance(it, SymList):
+        return False
+    if len(node.body) != 1 or not isinstance(node.body[0], ast.If) or node.orelse or not isinstance(node.target, ast.Name):
+        return False
+    iff = node.body[0]
+    if iff.orelse or not iff.body or not isinstance(iff.body[-1], ast.Break):
+        return False
+    for n_ in ast.walk(iff.test):
+        if isinstance(n_, (ast.NamedExpr, ast.Lambda, ast.ListComp, ast.IfExp, ast.BoolOp)):
+            return False
+    path, fr = interp.path, interp.stack[-1]
+    N = to_z3(it.length)
+    tname = node.target.id
+    tag = f"{fr.func_name}:search({tname})"
+    saved = len(path.pc)
+    k0 = path.fresh("sk_it")
+    path.assume(z3.And(k0 >= 0, k0 < N))
+    fr.env[tname] = it.get(k0)
+    interp.truth_term(interp.eval(iff.test))
+    del path.pc[saved:]
+
+    def Cterm(kterm):
+        old = fr.env.get(tname)
+        fr.env[tname] = it.get(kterm)
+        path.quiet += 1
+        try:
+            return interp.truth_term(interp.eval(iff.test))
+        finally:
+            path.quiet -= 1
+            if old is None:
+                fr.env.pop(tname, None)
+            else:
+                fr.env[tname] = old
+
+    s_ = path.fresh("first")
+    kq = z3.Int(f"kq!{path.counter.get('kq', 0)}")
+    path.counter["kq"] = path.counter.get("kq", 0) + 1
+    found = z3.And(s_ >= 0, s_ < N, Cterm(s_), z3.ForAll([kq], z3.Implies(z3.And(kq >= 0, kq < s_), z3.Not(Cterm(kq)))))
+    notfound = z3.ForAll([kq], z3.Implies(z3.And(kq >= 0, kq < N), z3.Not(Cterm(kq))))
+    b = path.fresh("found", "bool")
+    path.ghost.setdefault("searches", []).append(dict(found=b, first=s_, C=Cterm, N=N))
+    if path.decide(b):
+        path.assume(found)
+        fr.env[tname] = it.get(s_)
+        interp.exec_block(iff.body[:-1])
+    else:
+        path.assume(notfound)
+    path.engine.record(f"{tag}.pattern", "discharged", 0, "", None)
+    return True
+
+
+def _chk_extract(I, ret):
+    if I is None:
+        raise ValueError("check_isomorphism over an abstract list of graphs is not replayed concretely")
+    return dict(ret=ret, first=I.path.ghost["searches"][-1]["first"])
+
+
+def _chk_spec(I, graph, g_list, _only_auto):
+    """True  <=>  some graph of the list matches `graph` under the selected test (same adjacency / nx.is_isomorphic)"""
+    path = I.path
+    N = to_z3(g_list.length)
+    gid = graph.payload["id"]
+    P = EQG() if _only_auto else NX.ISO()
+
+    def Ck(k):
+        return P(gid, g_list.get(k).payload["id"])
+
+    if I.choice is not None:
+        ret, s_ = I.choice["ret"], I.choice["first"]
+    else:
+        ret, s_ = path.decide(path.fresh("iso", "bool")), path.fresh("first")
+    if ret:
+        I.claim("some-listed-graph-matches", z3.And(s_ >= 0, s_ < N, Ck(s_)))
+        return True
+    I.claim_forall("no-listed-graph-matches", 0, N, lambda k: z3.Not(Ck(k)))
+    return False
+
+
+def _chk_requires(I, graph, g_list, _only_auto):
+    from pyvc.symlist import SymList
+
+    return NX.is_graph(graph) and isinstance(g_list, SymList) and isinstance(_only_auto, bool)
+
+
+C[CHK] = Contract(CHK, requires=_chk_requires, spec=_chk_spec, extract=_chk_extract,
+                  clause="check_isomorphism(graph, g_list) is True exactly when some element of g_list matches graph "
+                         "(equal adjacency if _only_auto, else nx.is_isomorphic)")
+
+
+# ------------------------------------------------------------------------------------------ get_relabel_map
+GRM = f"{RELABEL}:get_relabel_map"
+
+
+def _as_graph_view(I, g):
+    if NX.is_graph(g):
+        return g.payload["n"], g.payload["adj"], g.payload["id"]
+    return g.shape[0], g.reader(), NX.array_graph_id(g)
+
+
+def _grm_requires(I, g1, g2):
+    ok = []
+    for g in (g1, g2):
+        if NX.is_graph(g):
+            continue
+        if not (isinstance(g, NDArr) and g.ndim == 2 and concrete_int(g.shape[0]) is not None and concrete_int(g.shape[0]) == concrete_int(g.shape[1])):
+            return False
+    return True
+
+
+def _grm_spec(I, g1, g2):
+    """equal adjacency matrices -> {-1: 'self', k: k for every node}; otherwise the GraphMatcher's mapping (an isomorphism
+    by [A]); the assertion failure for non-isomorphic graphs is the documented abrupt exit (permitted assert)"""
+    n1, a1, id1 = _as_graph_view(I, g1)
+    n2, a2, id2 = _as_graph_view(I, g2)
+    c1, c2 = concrete_int(n1), concrete_int(n2)
+    if c1 == c2:
+        eq = z3.And(*[as_int_term(a1(z3.IntVal(i), z3.IntVal(j))) == as_int_term(a2(z3.IntVal(i), z3.IntVal(j)))
+                      for i in range(c1) for j in range(c1)]) if c1 else z3.BoolVal(True)
+        if I.path.decide(eq):
+            d = {-1: "self"}
+            d.update({k: k for k in range(c1)})
+            return d
+    if id1 is None or id2 is None:
+        from pyvc.interp import Undecided
+
+        raise Undecided("matcher branch on an adjacency array without a graph id")
+    I.path.assume(NX.ISO()(id1, id2))  # normal return only when the (permitted) assert held
+    return NX.MAPPING()(id1, id2)
+
+
+C[GRM] = Contract(GRM, requires=_grm_requires, spec=_grm_spec,
+                  clause="get_relabel_map: identical adjacency -> identity map on the nodes plus the sentinel key -1:'self'; "
+                         "otherwise the GraphMatcher mapping (raises AssertionError if the graphs are not isomorphic)")
+
+
+def _grm_permitted_asserts(interp, name, node):
+    import ast
+
+    return ast.unparse(node.test) == "GM.is_isomorphic()"
+
+
 # ------------------------------------------------------------------------------------------ tasks
 def tasks():
     from pyvc.contract import Task
@@ -261,4 +471,85 @@ def tasks():
                   hooks={"loop": loops.make_hook(P2M_LOOPS)}))
     T.append(Task(REL, C[REL], [S.Assume(n >= 0), S.Matrix("A", n, n), Perm("perm", n)], C,
                   hooks={"matmul_support": relabel_support_hook}))
+    n1, n2, L = z3.Int("n1"), z3.Int("n2"), z3.Int("L")
+    T.append(Task(EQGQ, C[EQGQ], [S.Assume(z3.And(n1 >= 1, n2 >= 1)), NX.SimpleGraph("G1", n1), NX.SimpleGraph("G2", n2)], C,
+                  hooks=dict(NX.HOOKS)))
+    hk = dict(NX.HOOKS)
+    hk["loop"] = first_match_list_hook
+    for auto in (True, False):
+        T.append(Task(CHK, C[CHK], [S.Assume(z3.And(n >= 1, L >= 0)), NX.SimpleGraph("G", n), NX.GraphList("GL", L), S.Const("_only_auto", auto)],
+                      C, hooks=hk, label=f"check_isomorphism[_only_auto={auto}]"))
+    hg = dict(NX.HOOKS)
+    hg["permitted_asserts"] = _grm_permitted_asserts
+    for k in (1, 2, 3, 4):
+        T.append(Task(GRM, C[GRM], [NX.SimpleGraph("G1", k), NX.SimpleGraph("G2", k)], C, hooks=hg,
+                      label=f"get_relabel_map[nx.Graph,n={k}]"))
+    T.append(Task(GRM, C[GRM], [NX.SimpleAdj("A1", 3), NX.SimpleGraph("G2", 3)], C, hooks=hg, label="get_relabel_map[ndarray+nx.Graph,n=3]"))
     return T
+
+
+def canary_tasks():
+    """deliberately wrong postconditions: must be refuted, counter-model must replay on the real code"""
+    from pyvc.contract import Task
+    from pyvc import schema as S, loops
+
+    n = z3.Int("n")
+
+    def bad_p2m(I, sequence):  # transposed permutation matrix
+        rd = sequence.reader()
+        m = sequence.shape[0]
+        return new_array((m, m), lambda i, j: z3.If(as_int_term(rd(j)) == i, z3.IntVal(1), z3.IntVal(0)), "permute_matrix")
+
+    def bad_rel(I, adj_matrix, new_labels):  # relabelling by the inverse permutation: result[u,v] = A[p(u),p(v)]
+        ra, p = adj_matrix.reader(), new_labels.reader()
+        m = new_labels.shape[0]
+        return new_array((m, m), lambda i, k: ra(as_int_term(p(i)), as_int_term(p(k))), "relabelled")
+
+    return [
+        Task(P2M, C[P2M], [S.Assume(n >= 0), IndexVec("seq", n, n)], C, hooks={"loop": loops.make_hook(P2M_LOOPS)},
+             label="canary._perm2matrix.transposed", spec_override=bad_p2m),
+        Task(REL, C[REL], [S.Assume(n >= 0), S.Matrix("A", n, n), Perm("perm", n)], C,
+             hooks={"matmul_support": relabel_support_hook}, label="canary.relabel.inverse-permutation", spec_override=bad_rel,
+             timeout_ms=3000),
+    ] + _canaries2()
+
+
+def _canaries2():
+    from pyvc.contract import Task
+    from pyvc import schema as S
+
+    n, n1, n2, L = z3.Int("n"), z3.Int("n1"), z3.Int("n2"), z3.Int("L")
+
+    def bad_eqg(I, g1, g2):  # "equal" as soon as the node counts agree
+        r = I.choice["ret"] if I.choice is not None else I.path.fresh("eq", "bool")
+        I.claim("false-only-if-sizes-differ", z3.Implies(z3.Not(to_z3(r)), to_z3(g1.payload["n"]) != to_z3(g2.payload["n"])))
+        return r
+
+    def bad_chk(I, graph, g_list, _only_auto):  # True only if EVERY listed graph matches
+        N = to_z3(g_list.length)
+        gid = graph.payload["id"]
+        P = EQG() if _only_auto else NX.ISO()
+        ret = I.choice["ret"]
+        if ret:
+            I.claim_forall("all-listed-graphs-match", 0, N, lambda k: P(gid, g_list.get(k).payload["id"]))
+        return ret
+
+    def bad_grm(I, g1, g2):  # identity map without the sentinel key
+        d = _grm_spec(I, g1, g2)
+        if isinstance(d, dict):
+            d = dict(d)
+            d.pop(-1, None)
+        return d
+
+    hk = dict(NX.HOOKS)
+    hk["loop"] = first_match_list_hook
+    hg = dict(NX.HOOKS)
+    hg["permitted_asserts"] = _grm_permitted_asserts
+    return [
+        Task(EQGQ, C[EQGQ], [S.Assume(z3.And(n1 >= 1, n2 >= 1)), NX.SimpleGraph("G1", n1), NX.SimpleGraph("G2", n2)], C,
+             hooks=dict(NX.HOOKS), label="canary._equal_graphs.sizes-only", spec_override=bad_eqg),
+        Task(CHK, C[CHK], [S.Assume(z3.And(n >= 1, L >= 0)), NX.SimpleGraph("G", n), NX.GraphList("GL", L), S.Const("_only_auto", True)],
+             C, hooks=hk, label="canary.check_isomorphism.forall-instead-of-exists", spec_override=bad_chk),
+        Task(GRM, C[GRM], [NX.SimpleGraph("G1", 2), NX.SimpleGraph("G2", 2)], C, hooks=hg,
+             label="canary.get_relabel_map.no-sentinel", spec_override=bad_grm),
+    ]
